@@ -212,5 +212,15 @@ UNITS += [
 """),
 ]
 
-KANI = []
-META = {"not_covered": []}
+KANI = [
+    Harness("repofile::packfile::verif_kani::c08_bounded_header_sizes", kind="bounded",
+            bound="blob lists of length 1 or 2; ids, lengths (< 1e6), compressed/uncompressed mix and types symbolic",
+            functions=["repofile::packfile::PackHeaderRef::size", "repofile::packfile::PackHeaderRef::pack_size"], timeout=600),
+]
+KANI_UNWIND = 4
+META = {"not_covered": [
+    "binary header encoding itself (binrw derive: to_binary / from_binary) - uninterpreted HEADER/PARSE; a Kani round-trip harness did not finish in 20 min",
+    "pack id = SHA-256 of the pack file (computed in the Actor/FileWriterHandle thread pipeline)",
+    "repair-index command, Repacker, serde of index files",
+    "BasicPacker::new / should_save (SystemTime), PackSizer::add_size",
+]}
